@@ -3,8 +3,10 @@ ID = "C10"
 
 PROP = {
     "proof_modules": ["GrolProofs.Props.C10"],
-    "theorems": ["Grol.E.C10.runInput_congr", "Grol.E.C10.runInputs_congr", "Grol.E.C10.next_input_fresh_writer",
-                 "Grol.E.C10.reset_abnormal", "Grol.E.runInput_eq", "Grol.E.sameSession_iff"],
+    "theorems": ["Grol.E.C10.reset", "Grol.E.C10.reset_abnormal", "Grol.E.C10.no_trace", "Grol.E.C10.no_trace_of_same",
+                 "Grol.E.C10.runInput_congr", "Grol.E.C10.runInputs_congr", "Grol.E.C10.next_input_fresh_writer",
+                 "Grol.E.C10.runInput_keeps", "Grol.E.runInput_eq", "Grol.E.sameSession_iff",
+                 "Grol.E.eval_keeps", "Grol.E.eval_restores", "Grol.E.allGood"],
     "suites": ["session"],
     "rule": ("session suite: one case = a base history of inputs plus side-effect-free FAILING inputs inserted at chosen positions "
              "with chosen multiplicities; the history WITH and the history WITHOUT the failing inputs are each run on a fresh persistent "
@@ -47,12 +49,15 @@ LEVEL = {
              "every base input; depth 0, root scope, session writer, register count and globals unchanged after every failure) is evaluated "
              "on the implementation and the Lean session model predicts both histories. Theorems about the model's runInput, for all "
              "states/programs/continuations: an input's observation and successor state depend on the session state only up to the "
-             "writer stack and step counter (runInput_congr, runInputs_congr); the next input starts on a single fresh writer; after a "
-             "Go panic or the depth guard the scope is the root and the depth is 0 (reset_abnormal). The full no-trace statement "
-             "(heap grown by unreachable frames) is stated as C10.Statement and not proved."),
+             "writer stack and step counter (runInput_congr, runInputs_congr); the next input starts on a single fresh writer; from a "
+             "top-level state, after ANY input (normal, error, Go panic, depth guard) scope = root and depth = 0 (reset; by induction "
+             "over the whole evaluator: eval_restores, eval_keeps); an input whose final state has the heap and cache it started with "
+             "leaves no trace for any continuation (no_trace). The full statement (heap grown by unreachable frames, cache unchanged) "
+             "is stated as C10.Statement and not proved. One listed finding: with the cache on, a failing input leaves cached "
+             "closures behind (C04's closure-result class)."),
     "design_ref": "DESIGN.md section 7, C10",
     "note": ("Trusted: Lean kernel; axioms propext/Classical.choice/Quot.sound only; the evaluator model is tied to the code by the eval and "
              "session correspondence runs; harness canonicalisation. The two defects seen by hand (State.Out left on a call's buffer after a "
              "panic; registers leaked by failed counted loops) are repaired in /repo and the suite confirms they are gone."),
-    "technique": "Lean 4 session model + differential histories through the real REPL entry point; congruence and reset theorems",
+    "technique": "Lean 4 session model + differential histories through the real REPL entry point; congruence, reset (induction over the evaluator) and no-trace theorems",
 }
